@@ -5,7 +5,7 @@ From Coq Require Export ZArith QArith Qround Qabs List Bool.
 From Coq Require Import Reals.
 Export ListNotations.
 
-Inductive err := ENotInitialized | ENotReady | ESeedRepeat | EKey | EValue | EType | EAlreadyRun | EIndex | EOther.
+Inductive err := ENotInitialized | ENotReady | ESeedRepeat | EKey | EValue | EType | EAlreadyRun | EIndex | EOther | EZeroDiv.
 
 Inductive res (A : Type) := Ok (a : A) | Err (e : err).
 Arguments Ok {A} a.
@@ -19,7 +19,7 @@ Definition is_ok {A} (r : res A) : bool := match r with Ok _ => true | Err _ => 
 Definition err_eqb (a b : err) : bool :=
   match a, b with
   | ENotInitialized, ENotInitialized | ENotReady, ENotReady | ESeedRepeat, ESeedRepeat
-  | EKey, EKey | EValue, EValue | EType, EType | EAlreadyRun, EAlreadyRun | EIndex, EIndex | EOther, EOther => true
+  | EKey, EKey | EValue, EValue | EType, EType | EAlreadyRun, EAlreadyRun | EIndex, EIndex | EOther, EOther | EZeroDiv, EZeroDiv => true
   | _, _ => false
   end.
 
